@@ -40,6 +40,69 @@ UBLOCKS = {
 }
 
 
+# ---------------------------------------------------------------- parameters
+class Params:
+    """the Parameter objects of one run: parameter p (1-based) has a kind that says how a value id becomes a number"""
+
+    def __init__(self, kinds=(), init=()):
+        self.kinds = list(kinds)
+        self.objs = [lw.Parameter(self.value(k, v), label=("p%d" % (i + 1) if i % 2 == 0 else None))
+                     for i, (k, v) in enumerate(zip(kinds, init))]
+
+    @staticmethod
+    def value(kind, v):
+        if kind == "phase":
+            return "not-a-number" if v == 9 else phase(v)
+        return 1.5 if v == 9 else {0: 0.0, 1: 0.5, 2: 1.0}[v]
+
+    def arg(self, x, table):
+        """argument value for an API call: literal id -> number, 1000 + p -> the Parameter object"""
+        if isinstance(x, int) and 1000 <= x < 2000:
+            return self.objs[x - 1001]
+        return table(x)
+
+    def set(self, p, v):
+        self.objs[p - 1].set(self.value(self.kinds[p - 1], v))
+
+    def pid_of(self, obj):
+        for i, o in enumerate(self.objs):
+            if o is obj:
+                return i + 1
+        return None
+
+
+NOPARAMS = Params()
+
+
+def ops_compile(ops, pv):
+    """Python mirror of LwCircuitDefs.OpsCompile"""
+    def res(x):
+        return pv[x - 1001] if x >= 1000 else x
+    for o in ops:
+        if o[0] == "grp":
+            if not ops_compile(o[2], pv):
+                return False
+        elif o[0] == "bs" and res(o[2][0]) not in (0, 1, 2):
+            return False
+        elif o[0] == "loss" and res(o[2]) not in (0, 1, 2):
+            return False
+        elif o[0] == "ps" and res(o[2]) not in range(8):
+            return False
+    return True
+
+
+def params_of(ops):
+    out = set()
+    for o in ops:
+        if o[0] == "grp":
+            out |= params_of(o[2])
+        elif o[0] == "bs" and o[2][0] >= 1000:
+            out.add(o[2][0] - 1000)
+        elif o[0] in ("ps", "loss") and o[2] >= 1000:
+            out.add(o[2] - 1000)
+    return out
+
+
 # ---------------------------------------------------------------- scenario objects
 def template(n, loss):
     c = lw.Circuit(n)
@@ -64,6 +127,8 @@ def initial_objects(scenario, init_circ, pnu=3, tmpl_loss=False):
     """init_circ: the spec's initial circ value (tuple of records)"""
     if scenario == "single":
         return {1: lw.Circuit(init_circ[0]["nu"])}
+    if scenario == "pair":
+        return {1: lw.Circuit(pnu), 2: lw.Circuit(2)}
     return {1: parent(pnu), 2: template(3, tmpl_loss), 3: template(2, tmpl_loss)}
 
 
@@ -103,9 +168,11 @@ def user_positions(c):
     return [p for p in range(c.n_modes) if p not in internal]
 
 
-def conforms(impl, spec_c, spec_sem=None):
+def conforms(impl, spec_c, spec_sem=None, params=None, compiles=True):
     """None if the implementation circuit conforms to the abstract circuit record, else (clause, detail).
-    spec_sem: numpy matrix in the spec's index order (users, ancillas, loss lines) or None."""
+    spec_sem: numpy matrix in the spec's index order (users, ancillas, loss lines) or None.
+    params: Params (then get_all_params must list exactly the parameters of the abstract circuit, once each)
+    compiles: False when the specification says the current parameter values are invalid for a component"""
     nu = spec_c["nu"]
     anc = list(spec_c["anc"])
     k = len(anc)
@@ -131,10 +198,20 @@ def conforms(impl, spec_c, spec_sem=None):
             return ("ancilla_herald", "hidden mode %d heralds in=%s out=%s" % (p, hin.get(p), hout.get(p)))
     if sorted(hin[p] for p in internal) != sorted(anc):
         return ("ancilla_herald", "ancilla herald numbers %s, expected %s" % (sorted(hin[p] for p in internal), sorted(anc)))
+    if params is not None:
+        got = [params.pid_of(x) for x in impl.get_all_params()]
+        exp = sorted(params_of(spec_c["ops"]))
+        if None in got or sorted(got) != exp:
+            return ("all_params", "get_all_params lists %s, expected exactly the parameters %s once each" % (got, exp))
     try:
         V = impl.U_full
     except Exception as e:
+        if not compiles:
+            return None
         return ("compile", "U_full raised %s: %s" % (type(e).__name__, e))
+    if not compiles:
+        return ("invalid_value_not_reported", "a parameter value invalid for its component did not surface as a compilation error "
+                "(U_full returned a matrix%s)" % (" containing NaN" if np.isnan(V).any() else ""))
     if spec_sem is None:
         return None
     n_full = spec_sem.shape[0]
@@ -160,22 +237,36 @@ class Drift(Exception):
     """the implementation accepted a call the specification rejects (outside the properties' domain)"""
 
 
-def apply_event(objs, ev):
+def apply_event(objs, ev, params=NOPARAMS):
     """execute one call; returns None or raises whatever the library raises"""
     name, t = ev[1], ev[2]
     a = ev[3:]
+    P = params
     if name == "bs":
-        kw = dict(reflectivity=RID[a[2]], convention=a[3])
+        kw = dict(reflectivity=P.arg(a[2], RID.get), convention=a[3])
         if a[4] != 0:
-            kw["loss"] = LQ[a[4]]
+            kw["loss"] = P.arg(a[4], LQ.get)
         objs[t].bs(mode_arg(a[0]), mode_arg(a[1]), **kw)
     elif name == "ps":
         if a[2] != 0:
-            objs[t].ps(mode_arg(a[0]), phase(a[1]), loss=LQ[a[2]])
+            objs[t].ps(mode_arg(a[0]), P.arg(a[1], phase), loss=P.arg(a[2], LQ.get))
         else:
-            objs[t].ps(mode_arg(a[0]), phase(a[1]))
+            objs[t].ps(mode_arg(a[0]), P.arg(a[1], phase))
     elif name == "loss":
-        objs[t].loss(mode_arg(a[0]), LQ[a[1]])
+        objs[t].loss(mode_arg(a[0]), P.arg(a[1], LQ.get))
+    elif name == "setpar":
+        P.set(a[0], a[1])
+    elif name == "copyf":
+        objs[t] = objs[a[0]].copy(freeze_parameters=True)
+    elif name == "display":
+        import matplotlib.pyplot as plt
+        c = objs[t]
+        nuser = c.n_modes - len(c._internal_modes)
+        labels = None if a[3] == 99 else ["m%d" % i for i in range(nuser + a[3])]
+        try:
+            lw.Display(c, display_loss=a[1], mode_labels=labels, display_type=a[0], show_parameter_values=a[2])
+        finally:
+            plt.close("all")
     elif name == "bar":
         if len(a[0]) == 0:
             objs[t].barrier()
@@ -225,7 +316,7 @@ def non_adjacent_bs(spec):
     return False
 
 
-def replay(prog, objs, expected_circ=None, expected_sem=None):
+def replay(prog, objs, expected_circ=None, expected_sem=None, params=NOPARAMS, pval=None, numeric=False):
     """Step a program through real objects.
     Returns list of findings: (clause, step_index, detail).  Clauses:
       valid_call_raised, arg_mutated, reject_changed_state, rewrite_changed, rewrite_structure,
@@ -237,7 +328,7 @@ def replay(prog, objs, expected_circ=None, expected_sem=None):
         if ev[1] == "compress":
             nspec = len(objs[ev[2]]._get_circuit_spec())
         try:
-            apply_event(objs, ev)
+            apply_event(objs, ev, params)
             raised = None
         except Exception as e:  # noqa: BLE001
             raised = e
@@ -251,11 +342,23 @@ def replay(prog, objs, expected_circ=None, expected_sem=None):
             return out
         if ev[0] == "rej":
             if raised is None:
+                if ev[1] == "display":
+                    out.append(("display_not_rejected", i, "%s was not rejected" % (ev,)))
+                    continue
                 raise Drift("step %d %s accepted by the implementation" % (i, ev))
+            if ev[1] == "display" and type(raised).__name__ != "DisplayError":
+                out.append(("display_not_rejected", i, "%s raised %s instead of DisplayError" % (ev, type(raised).__name__)))
             for o in before:
                 if before[o] != after.get(o):
                     out.append(("reject_changed_state", i, "rejected call %s changed object %d" % (ev, o)))
             continue
+        if ev[1] == "setpar":
+            for o in before:       # circuits that do not mention the parameter must not notice
+                if expected_circ is not None and ev[3] not in params_of(expected_circ[o - 1]["ops"]) and before[o] != after[o]:
+                    out.append(("arg_mutated", i, "Parameter.set %s changed object %d which does not use it" % (ev, o)))
+            continue
+        if ev[1] == "display" and before[tgt] != after[tgt]:
+            out.append(("display_changed", i, "display %s changed the circuit" % (ev,)))
         for o in before:
             if o != tgt and before[o] != after[o]:
                 out.append(("arg_mutated", i, "call %s changed object %d (not its target)" % (ev, o)))
@@ -280,7 +383,8 @@ def replay(prog, objs, expected_circ=None, expected_sem=None):
             sm = None
             if expected_sem is not None and expected_sem[o - 1] != ():
                 sm = ring.mat_to_np(expected_sem[o - 1])
-            r = conforms(c, sc, sm)
+            comp = ops_compile(sc["ops"], pval) if pval else True
+            r = conforms(c, sc, sm, params if params.objs else None, comp)
             if r:
                 out.append((r[0], len(prog) - 1, "object %d: %s" % (o, r[1])))
     return out
@@ -295,27 +399,31 @@ def dump_worker(st, ctx):
     semv = st.get("sem")
     res = {"prog": prog, "findings": [], "drift": None, "calib": 0.0, "op": st.get("op"), "ctx": ctx,
            "init": ({"kind": "tmpl", "pnu": ctx.get("pnu", 3), "loss": ctx.get("tmpl_loss", False)} if ctx["scenario"] == "tmpl"
+                    else {"kind": "sizes", "sizes": [ctx.get("pnu", 3), 2]} if ctx["scenario"] == "pair"
                     else {"kind": "sizes", "sizes": [circ[0]["nu"]]})}
     objs = initial_objects(ctx["scenario"], circ, ctx.get("pnu", 3), ctx.get("tmpl_loss", False))
+    pval = st.get("pval") or ()
+    params = Params(ctx.get("parkinds", ()), ctx.get("parinit", ()))
     exp_sem = None
     if ctx.get("numeric") and semv is not None:
         exp_sem = semv
         # calibration of the evaluator against TLC's exact matrices
         for o, c in enumerate(circ):
             if c["nu"] >= 0 and semv[o] != ():
-                d = np.abs(ev.sem(c) - ring.mat_to_np(semv[o])).max()
+                d = np.abs(ev.sem(c, pv=pval) - ring.mat_to_np(semv[o])).max()
                 res["calib"] = max(res["calib"], float(d))
     else:
         # structure decided by TLC, numbers by the (calibrated) evaluator
         exp_sem = None
     try:
-        f = replay(prog, objs, circ, exp_sem)
+        f = replay(prog, objs, circ, exp_sem, params, pval)
         if exp_sem is None and not f:
             for o, c in objs.items():
                 sc = circ[o - 1]
                 if sc["nu"] < 0:
                     continue
-                r = conforms(c, sc, ev.sem(sc))
+                comp = ops_compile(sc["ops"], pval)
+                r = conforms(c, sc, ev.sem(sc, pv=pval) if comp else None, params if params.objs else None, comp)
                 if r:
                     f.append((r[0], len(prog) - 1, "object %d: %s" % (o, r[1])))
         res["findings"] = f
